@@ -41,9 +41,13 @@ def tree_hash():
         for fn in sorted(files):
             if fn in ("oracle.py", "evaluate.py", "shrink.py") or fn.startswith("dev_"):
                 continue  # judging what was observed does not change what is executed
-            if fn.endswith((".py", ".rs")):
+            if fn.endswith((".py", ".rs", ".json", ".toml")):
                 with open(os.path.join(root, fn), "rb") as f:
                     h.update(hashlib.sha256(f.read()).digest())
+    # the corpus definitions live next to the checks
+    for fn in ("e2e_common.py", "c08.py"):
+        with open(os.path.join(os.path.dirname(here), "checks", fn), "rb") as f:
+            h.update(hashlib.sha256(f.read()).digest())
     return h.hexdigest()[:20]
 
 
